@@ -116,6 +116,47 @@ def run_snap(kind: str, is_async: bool, a0: int, b0: int, s0: int, d1: int, b1: 
 # ---------------------------------------------------------------------------------------------
 # misuse, rejected at definition time
 # ---------------------------------------------------------------------------------------------
+CALL_STYLES = ["positional", "keywords_in_order", "keywords_reversed", "positional_then_keyword", "default_for_last",
+               "keywords_rotated"]
+
+
+def run_multi_capture(style: int, is_async: bool, a: int, b: int) -> Tuple[bool, bool]:
+    """A named snapshot whose capture takes several parameters, listed in another order than the function's, under every
+    argument-passing style: each parameter of the capture is bound to the argument of that name."""
+    style = conc(style, 0, len(CALL_STYLES) - 1)
+    is_async = True if is_async else False
+    seen = {}  # type: Dict[str, Any]
+
+    def cap(dst: Any, n: Any, src: Any) -> Any:
+        return ("src", src, "dst", dst, "n", n)
+
+    def post(OLD: Any) -> Any:
+        seen["old"] = OLD.all3
+        return True
+    if is_async:
+        async def move(src: Any, dst: Any, n: Any = 7) -> Any:
+            return None
+    else:
+        def move(src: Any, dst: Any, n: Any = 7) -> Any:  # type: ignore
+            return None
+    f = icontract.ensure(post, error=lambda: Tag("post"))(move)
+    f = icontract.snapshot(cap, name="all3")(f)
+    src, dst = [a], [b]
+    call = {"positional": lambda: f(src, dst, 3), "keywords_in_order": lambda: f(src=src, dst=dst, n=3),
+            "keywords_reversed": lambda: f(n=3, dst=dst, src=src), "positional_then_keyword": lambda: f(src, n=3, dst=dst),
+            "default_for_last": lambda: f(dst=dst, src=src), "keywords_rotated": lambda: f(dst=dst, n=3, src=src)}[CALL_STYLES[style]]
+
+    def run() -> Any:
+        r = call()
+        return drive(r) if is_async else r
+    fresh(run)
+    n = 7 if CALL_STYLES[style] == "default_for_last" else 3
+    old = seen.get("old")
+    ok = (old is not None and len(old) == 6 and old[1] is src and old[3] is dst and old[5] == n)
+    note(("multi_capture", CALL_STYLES[style], is_async), True)
+    return ok, True
+
+
 N_MISUSE = 12
 
 
@@ -265,5 +306,10 @@ def harnesses(tier: str) -> List[H]:
                              family_size=2 * 3 * 3 * (4 if d1 == 2 else 1) * 4))
     out.append(H("snap_misuse", bind(run_misuse, (), ["m", "k"], {}, ["m", "k"]),
                  [I("m", 0, N_MISUSE - 1), I("k", 0, 2)], tiers=(tier,), timeout=120,
-                 family="definition-time misuse kinds x {function, DBC method, async function}", family_size=27))
+                 family="definition-time misuse kinds x {function, DBC method, async function}", family_size=3 * N_MISUSE))
+    MC = ["style", "is_async", "a", "b"]
+    out.append(H("multi_parameter_capture", bind(run_multi_capture, (), MC, {}, MC),
+                 [I("style", 0, len(CALL_STYLES) - 1), B("is_async"), I("a", -3, 3), I("b", -3, 3)], tiers=(tier,), timeout=200,
+                 family="def / async def move(src, dst, n=7) with a named snapshot whose capture is lambda dst, n, src: ...; call "
+                        "styles {}".format(CALL_STYLES), family_size=2 * len(CALL_STYLES)))
     return out
